@@ -182,10 +182,6 @@ def finalize(m: dict, tier: str) -> list[str]:
 
 
 # =================================================================== helpers
-def _h(*parts) -> bytes:
-    return hashlib.sha256(repr(parts).encode()).digest()
-
-
 def _exc_tag(e: BaseException) -> str:
     return f"{type(e).__name__}@{tb_origin(e)}"
 
@@ -974,7 +970,6 @@ def shard_ellswift(ctx: Ctx) -> None:
     rng = ctx.rng
     arms = _arms()
     pool = _pool(rng, 24)
-    k1 = CURVES["secp256k1"]
 
     def on(arm):
         if backend_available():
@@ -1098,7 +1093,6 @@ def shard_ellswift(ctx: Ctx) -> None:
                     elif sa[1] != want:
                         ctx.violation("ellswift:xdh-differs-from-group-law", f"{name}: both parties derive {sa[1].hex()}, the shared x-coordinate hashes to {want.hex()}", case)
                     ctx.case("ellswift:other-curve", (name, a, b, ea, eb), sample=case)
-        _ = k1
     finally:
         if backend_available():
             set_backend(True)
